@@ -498,6 +498,9 @@ fn main() {
   for k in 0..p4_programs {
     programs.push((corpus.p4(&mut gen_rng, k), 7 * mult));
   }
+  for p in corpus.shapes() {
+    programs.push((p, 24 * mult));
+  }
   // job list: (program index, config index); config 0 is the reference
   let mut jobs: Vec<(usize, u64)> = Vec::new();
   for (pi, (_, n)) in programs.iter().enumerate() {
